@@ -1128,3 +1128,29 @@ Definition json_to_fgg_model (c : nat) (j : json) : res fgg :=
   do itf <- jitems jf;
   do facs <- json_to_factors (h_labels h') doms itf [];
   Ok (mkFGG h' doms facs).
+
+(* ------------------------------------------------------------------------- *)
+(** * Oracle for "out-of-range node numbers": does a grammar document contain an attachment or
+    external node number [z] with [p n z], [n] = number of nodes of that rule? *)
+Definition list_of (r : res json) : list json := match r with Ok (JList l) => l | _ => [] end.
+
+Definition num_sat (p : nat -> Z -> bool) (n : nat) (j : json) : bool :=
+  match j with JInt z => p n z | _ => false end.
+
+Definition rule_has_num (p : nat -> Z -> bool) (jr : json) : bool :=
+  match jget jr k_rhs with
+  | Ok rhs =>
+      let n := length (list_of (jget rhs k_nodes)) in
+      existsb (fun je => existsb (num_sat p n) (list_of (jget je k_attachments))) (list_of (jget rhs k_edges))
+      || existsb (num_sat p n) (list_of (jget rhs k_externals))
+  | Err _ => false
+  end.
+
+Definition has_num (p : nat -> Z -> bool) (jg : json) : bool :=
+  existsb (rule_has_num p) (list_of (jget jg k_rules)).
+
+(** outside [0..n-1] (what the property calls out of range) *)
+Definition oor (n : nat) (z : Z) : bool := ((z <? 0) || (Z.of_nat n <=? z))%Z.
+(** outside [-n..n-1] (what Python list indexing calls out of range) *)
+Definition oor_py (n : nat) (z : Z) : bool := ((z <? - Z.of_nat n) || (Z.of_nat n <=? z))%Z.
+Definition has_oor (jg : json) : bool := has_num oor jg.
